@@ -13,18 +13,19 @@ gather.go and are tied to the code by differential correspondence (component `re
 
 All theorems quantify over ALL rule lists (any length) and ALL keys.
 
-FULL STATEMENT (false on the unchanged tree, see the two `_witness` theorems):
+FULL STATEMENT (false on the unchanged tree, see `C19_lookup_is_documented_witness`):
 
   theorem C19_lookup_is_documented (rules : List Rule) (m : Mapper) (k : Key)
       (h : newMapper rules = .ok (some m)) :
       findExternalIPs m k.ct (.ok k.ip) k.iface = .ok (documented rules k)
 
-It fails in exactly two ways, each carved out by an explicit decidable guard:
+It fails in exactly one way, carved out by an explicit decidable guard:
   * F3  `f3Region rules k`  — the key carries an interface name, no explicit Local match, the best
         documented rank among the matching catch-alls is CIDR-only, and the first matching catch-all
-        is a global one (then the code answers with that global rule: `C19_lookup_f3_region_exact`);
-  * F15 `noStarved rules`   — some catch-all without CIDR has externals, all of a family its
-        `Networks` exclude (the code then applies it as an empty catch-all).
+        is a global one (then the code answers with that global rule: `C19_lookup_f3_region_exact`).
+The second way (F15, guard `noStarved`: a catch-all without CIDR whose externals are all of a family its
+`Networks` exclude was applied as an empty catch-all) was fixed in /repo d6a4f83; the guard is gone from every
+theorem below, `C19_starved_not_registered` + the regression examples replace the former witness.
 -/
 namespace IceProps.C19
 open IceModel.Rewrite IceSpec.C19 IceProofs.Rewrite
@@ -56,13 +57,14 @@ def f3Mapper : Mapper := [
   (1, { iface := "", cidr := some ⟨true, 167772160, 24⟩, mode := 1,
         m4 := { valid := true, catchAll := true, sole := [⟨true, 3405803777⟩] }, m6 := {} })]
 
-/-- F15 witness: one host rule, replace mode, external 2001:db8:ffff::1 only, Networks = [udp4]. -/
+/-- the former F15 witness: one host rule, replace mode, external 2001:db8:ffff::1 only, Networks = [udp4]. -/
 def starvedRules : List Rule := [
   { ctype := 1, mode := 1, iface := "", cidr := .none, loc := .none, nets := [1],
     ext := [.ok ⟨false, 42540766490509546445348707916023070721⟩] }]
 
-def starvedMapper : Mapper := [
-  (1, { iface := "", cidr := none, mode := 1, m4 := { valid := true, catchAll := true }, m6 := {} })]
+/-- the starved rule followed by a global IPv4 rule (append) -/
+def starvedThenGlobal : List Rule := starvedRules ++ [
+  { ctype := 1, mode := 2, iface := "", cidr := .none, loc := .none, nets := [], ext := [.ok ⟨true, 3325256705⟩] }]
 
 /-- key (host, 10.0.0.5, no interface name) -/
 def plainKey : Key := { ct := 1, ip := ⟨true, 167772165⟩, iface := "" }
@@ -70,7 +72,7 @@ def plainKey : Key := { ct := 1, ip := ⟨true, 167772165⟩, iface := "" }
 /-! ## lookup precedence -/
 
 /-- For EVERY rule list that `newAddressRewriteMapper` accepts and EVERY key, the lookup equals the
-documented precedence read with the two as-coded clauses (F3 rank, F15 starved rule) — no guard. -/
+documented precedence read with the one as-coded clause (F3 rank) — no guard. -/
 theorem C19_lookup_as_coded (rules : List Rule) (m : Mapper) (k : Key)
     (h : newMapper rules = .ok (some m)) :
     findExternalIPs m k.ct (.ok k.ip) k.iface = .ok (lookupWith asCodedClauses rules k) := by
@@ -79,15 +81,16 @@ theorem C19_lookup_as_coded (rules : List Rule) (m : Mapper) (k : Key)
 
 example : newMapper f3Rules = .ok (some f3Mapper) := by rfl
 
-/-- The documented precedence holds for every rule list and key outside the two carved-out defects. -/
+/-- The documented precedence holds for every rule list and key outside the carved-out defect F3 (the second
+guard, `noStarved`, was dropped with the fix of F15). -/
 theorem C19_lookup_is_documented_partial (rules : List Rule) (m : Mapper) (k : Key)
-    (h : newMapper rules = .ok (some m)) (hs : noStarved rules = true) (hf : f3Region rules k = false) :
+    (h : newMapper rules = .ok (some m)) (hf : f3Region rules k = false) :
     findExternalIPs m k.ct (.ok k.ip) k.iface = .ok (documented rules k) := by
-  rw [C19_lookup_as_coded rules m k h, asCoded_eq_documented rules k hs hf]
+  rw [C19_lookup_as_coded rules m k h, asCoded_eq_documented rules k hf]
 
 -- non-vacuity: the guards hold on the F3 rule list itself for the key without interface name,
 -- where the CIDR rule wins as documented
-example : noStarved f3Rules = true ∧ f3Region f3Rules plainKey = false
+example : f3Region f3Rules plainKey = false
     ∧ documented f3Rules plainKey = { ips := [⟨true, 3405803777⟩], matched := true, mode := 1 } := by decide
 
 /-- A rule list compiling to the `nil` mapper has no rule in scope of any key (as coded). -/
@@ -127,35 +130,38 @@ example : f3Region f3Rules f3Key = true := by decide
 /-- Inside the F3 region the code answers with the FIRST matching catch-all, a global rule `g`,
 whereas the documentation demands the first matching CIDR-only rule `c` (for all rule lists/keys). -/
 theorem C19_lookup_f3_region_exact (rules : List Rule) (m : Mapper) (k : Key)
-    (h : newMapper rules = .ok (some m)) (hs : noStarved rules = true) (hf : f3Region rules k = true) :
+    (h : newMapper rules = .ok (some m)) (hf : f3Region rules k = true) :
     ∃ g c, g ∈ rules ∧ c ∈ rules ∧ isCatchAll g k = true ∧ isCatchAll c k = true ∧ rank g = 0 ∧ rank c = 1 ∧
       findExternalIPs m k.ct (.ok k.ip) k.iface
         = .ok { ips := (catchAllIPs g k).getD [], matched := true, mode := docMode g } ∧
       documented rules k = { ips := (catchAllIPs c k).getD [], matched := true, mode := docMode c } := by
   obtain ⟨g, c, h1, h2, h3, h4, h5, h6, h7, h8⟩ := f3_region_exact rules k hf
   refine ⟨g, c, h1, h2, h3, h4, h5, h6, ?_, h8⟩
-  rw [C19_lookup_as_coded rules m k h, asCoded_eq_f3 rules k hs, h7]
+  rw [C19_lookup_as_coded rules m k h, asCoded_eq_f3 rules k, h7]
 
-example : noStarved f3Rules = true ∧ f3Region f3Rules f3Key = true := by decide
+example : f3Region f3Rules f3Key = true := by decide
 
-/-- F15: also with the F3 region excluded the full statement is FALSE — witness
-[host replace, External = [2001:db8:ffff::1], Networks = [udp4]], key (host, 10.0.0.5, ""): the code
-matches with an EMPTY list (replace mode: the candidate is dropped), the documentation has no rule
-in scope of an IPv4 address. -/
-theorem C19_lookup_starved_witness :
-    ¬ (∀ (rules : List Rule) (m : Mapper) (k : Key), newMapper rules = .ok (some m) →
-        f3Region rules k = false →
-        findExternalIPs m k.ct (.ok k.ip) k.iface = .ok (documented rules k)) := by
-  intro hall
-  have h := hall starvedRules starvedMapper plainKey (by rfl) (by decide)
-  have h1 : findExternalIPs starvedMapper plainKey.ct (.ok plainKey.ip) plainKey.iface
-      = .ok { ips := [], matched := true, mode := 1 } := by rfl
-  have h2 : documented starvedRules plainKey = Res.noMatch := by decide
-  rw [h1, h2] at h
-  injection h with h
-  exact absurd h (by decide)
+/-- (replaces the F15 witness, /repo d6a4f83) A starved rule — a catch-all without CIDR that names externals, all of
+a family its `Networks` exclude — is never registered by `newAddressRewriteMapper`: it matches nothing, as documented,
+instead of dropping the candidates of the allowed families. For EVERY such rule that compiles. -/
+theorem C19_starved_not_registered (r : Rule) (hs : starved r = true) (o : Option (Nat × CRule))
+    (h : compileRule r = .ok o) : o = none :=
+  compileRule_starved r hs o h
 
-example : noStarved starvedRules = false := by decide
+example : starved starvedRules.head! = true := by decide
+-- regression for the former F15 witness: the rule alone gives the nil mapper (no lookup can match), and the
+-- documentation has no rule in scope of the IPv4 key; followed by a global rule, that rule answers
+example : newMapper starvedRules = .ok none := by rfl
+example : documented starvedRules plainKey = Res.noMatch := by decide
+example : compileRule starvedRules.head! = .ok none := by rfl
+example : ∃ m, newMapper starvedThenGlobal = .ok (some m) ∧ f3Region starvedThenGlobal plainKey = false ∧
+    findExternalIPs m plainKey.ct (.ok plainKey.ip) plainKey.iface
+      = .ok { ips := [⟨true, 3325256705⟩], matched := true, mode := 2 } ∧
+    documented starvedThenGlobal plainKey = { ips := [⟨true, 3325256705⟩], matched := true, mode := 2 } :=
+  ⟨_, rfl, by decide, rfl, by decide⟩
+-- the documented empty rule (External = []) with the same Networks still IS an empty catch-all for IPv4 only
+example : (compileRule { ctype := 1, mode := 1, iface := "", cidr := .none, loc := .none, nets := [1], ext := [] })
+    = .ok (some (1, { iface := "", cidr := none, mode := 1, m4 := { valid := true, catchAll := true }, m6 := {} })) := by rfl
 
 /-- "explicit Local matches win immediately" holds in the code for EVERY rule list and key: if some
 rule in scope is pinned to the key's address, the first such rule's externals and mode are returned. -/
@@ -437,15 +443,19 @@ theorem C19_code_external_family (a4 a6 : Bool) (cidr : Option CIDR) (e : IP) (f
    (IceTie.Rewrite2.addExternalMappings_iter_model a4 a6 cidr e fam).2,
    fun hs pe ie hl lv hc cv => IceTie.Rewrite2.addExternalMappings_iter_tie hs pe ie hl lv hc cv a4 a6⟩
 
-/-- `maybeMarkEmptyMapping`: a rule without `Local` to which no external address was added ends with the model's `catchAllMap`
-(every allowed family a valid, empty catch-all); a rule pinned by `Local` gets its empty entry iff `pinMap` is valid -/
-theorem C19_code_empty_mapping (a4 a6 : Bool) (cidr : Option CIDR) (exts : List IP) (l : IP)
-    (h4 : (soleFor a4 a6 cidr exts true).isEmpty = true) (h6 : (soleFor a4 a6 cidr exts false).isEmpty = true) :
+/-- `maybeMarkEmptyMapping`: a rule without `Local` and with an EMPTY External list (the only case in which it is called since
+/repo d6a4f83) ends with the model's `catchAllMap` (every allowed family a valid, empty catch-all); a rule that names externals
+of which none was added keeps the untouched mappings, which is the model's `catchAllMap` too; a rule pinned by `Local` gets its
+empty entry iff `pinMap` is valid -/
+theorem C19_code_empty_mapping (a4 a6 : Bool) (cidr : Option CIDR) (exts : List IP) (l : IP) :
     IceTie.Rewrite2.applyMark (IceGen.maybeMarkEmptyMapping false false false a4 a6) ({}, {})
-      = (catchAllMap a4 a6 cidr exts true, catchAllMap a4 a6 cidr exts false) ∧
+      = (catchAllMap a4 a6 cidr [] true, catchAllMap a4 a6 cidr [] false) ∧
+    (exts ≠ [] → (soleFor a4 a6 cidr exts true).isEmpty = true → (soleFor a4 a6 cidr exts false).isEmpty = true →
+      (({}, {}) : FamMap × FamMap) = (catchAllMap a4 a6 cidr exts true, catchAllMap a4 a6 cidr exts false)) ∧
     ((IceGen.maybeMarkEmptyMapping false true l.v4 a4 a6 ≠ []) ↔ (pinMap a4 a6 l [] l.v4).valid = true) ∧
     (∀ hasLocal localV4, IceGen.maybeMarkEmptyMapping true hasLocal localV4 a4 a6 = []) :=
-  ⟨IceTie.Rewrite2.maybeMarkEmptyMapping_model a4 a6 cidr exts h4 h6, IceTie.Rewrite2.maybeMarkEmptyMapping_pin a4 a6 l,
+  ⟨IceTie.Rewrite2.maybeMarkEmptyMapping_model a4 a6 cidr, IceTie.Rewrite2.unmarked_model a4 a6 cidr exts,
+   IceTie.Rewrite2.maybeMarkEmptyMapping_pin a4 a6 l,
    fun hl lv => by rw [IceTie.Rewrite2.maybeMarkEmptyMapping_tie]; rfl⟩
 
 /-- the small pieces translated earlier, as obligations of this check: mode defaulting, family permission, the network-type
